@@ -26,6 +26,20 @@ def spec_function(model: Model, source: str, module: str, cls: Optional[str] = N
     ci = model.find_class(cls) if cls else None
     fi = FuncInfo(f"spec:{module}:{fn.name}", fn.name, fn, mi, ci, parent_func)
     fn._finfo = fi  # type: ignore
+    # functions defined inside it (a normalised view keeps the nested helpers of the original): known to the term
+    # engine through a side table, not listed among the package's functions
+    stack = list(fn.body)
+    while stack:
+        x = stack.pop()
+        if isinstance(x, (ast.FunctionDef, ast.AsyncFunctionDef)):
+            q = f"{module}:__view__.{fn.name}.{x.name}"
+            sub = FuncInfo(q, x.name, x, mi, None, fi)
+            x._finfo = sub  # type: ignore
+            model.__dict__.setdefault("_extra_funcs", {})[q.replace(":", ".")] = sub
+            continue
+        if isinstance(x, (ast.ClassDef, ast.Lambda)):
+            continue
+        stack.extend(c for c in ast.iter_child_nodes(x) if isinstance(c, (ast.stmt, ast.ExceptHandler)))
     return fi
 
 
